@@ -69,7 +69,10 @@ def run_check(prop, tier, seed):
                    rule_groups=(hit or r['findings'][0])['groups'], attributed_to=sorted(attributed_all), trace=r['lines'],
                    worker_notes=notes_by_sc.get(r['sc'], []))
         if hit is None:
-            foreign.append(rec)
+            # a known finding of the property it is attributed to is not news either
+            f0 = r['findings'][0]
+            if not any(core.match_known(known, q, sc, dict(event=f0['event'], groups=f0['groups'])) for q in attributed_all):
+                foreign.append(rec)
             continue
         k = core.match_known(known, prop, sc, dict(event=hit['event'], groups=hit['groups']))
         if k:
